@@ -110,6 +110,36 @@ def handler : Handler := fun op inp out =>
           ("equal-canonical-forms-iff-isomorphic", separationClause a b ca cb)])
       | _ => (model, fail "no-canonical-form-returned")
     | none => bad
+  | "seeds" =>
+    -- IN sym ; OUT minimal-code (code_d map_d) for d = 1..size
+    match run P.rawSym inp with
+    | some s =>
+      let a := specSym s
+      let model : String :=
+        match s.toSym with
+        | .ok y =>
+          (match minimalTraversalCode y with
+           | .ok best =>
+             joinToks (encInts best.code :: (List.range y.size).map fun d0 =>
+               match traversalCode y (d0 + 1) with
+               | .ok c => joinToks [encInts c.code, encNats c.map.toList]
+               | _ => "PANIC")
+           | _ => "PANIC")
+        | _ => "PANIC"
+      match run (do
+          let best ← P.ints
+          let cms ← P.rep s.size (do let c ← P.ints; let m ← P.nats; pure (c, m.toArray))
+          let e ← P.atEnd
+          pure (best, cms, e)) out with
+      | some (best, cms, true) =>
+        (model, check [
+          ("input-in-domain", inDomain a),
+          ("every-seed-numbers-all-chambers", seedsNumberAll a.size (cms.map (·.2))),
+          ("all-codes-have-one-length", codesOneLength (cms.map (·.1))),
+          ("equal-codes-rebuild-equal-symbols", equalCodesEqualSymbols a cms),
+          ("minimal-code-is-the-least-code", isLeastCode best (cms.map (·.1)))])
+      | _ => (model, fail "no-codes-returned")
+    | none => bad
   | _ => ("-", fail s!"driver-unknown-op-{op}")
 
 end DrvC03
